@@ -58,9 +58,12 @@ def spec_digest():
 
 def run_tlc(module, consts, invariants=(), name=None, workers=8, timeout=1800, extra_cfg="", spec="Spec",
             simulate=None, heap="8g", properties=(), view=None, constraint=None, action_constraint=None,
-            check_deadlock=False):
+            check_deadlock=False, queue=None):
     """Run TLC on spec/<module>.tla with a generated cfg. Returns dict(out=path, states, distinct, wall_s)."""
     name = name or module
+    if consts and "FullRollback" in consts:
+        consts = dict(consts)
+        consts.setdefault("KeepHist", True)
     d = os.path.join(WORK, name)
     os.makedirs(d, exist_ok=True)
     cfg = os.path.join(d, f"{name}.cfg")
@@ -89,7 +92,7 @@ def run_tlc(module, consts, invariants=(), name=None, workers=8, timeout=1800, e
         cmd += ["-simulate", simulate]
     cmd += [os.path.join(SPEC, module + ".tla")]
     env = dict(os.environ)
-    env["JAVA_TOOL_OPTIONS"] = f"-Xmx{heap} -Xss512m"
+    env["JAVA_TOOL_OPTIONS"] = f"-Xmx{heap} -Xss512m" + (f" -Dtlc2.tool.queue.IStateQueue={queue}" if queue else "")
     t0 = time.time()
     with open(out, "w") as fo:
         p = subprocess.run(cmd, stdout=fo, stderr=subprocess.STDOUT, cwd=SPEC, env=env)
